@@ -11,6 +11,7 @@ mod util;
 mod surface;
 mod scene;
 mod pathops;
+mod format;
 
 fn run_line(line: &str, aug: bool) -> String {
     let toks: Vec<&str> = line.split_whitespace().collect();
@@ -20,6 +21,7 @@ fn run_line(line: &str, aug: bool) -> String {
     match toks[0] {
         "surf" => surface::run(&toks[1..]),
         "scene" => scene::run(&toks[1..], aug),
+        "fmt" => format::run(&toks[1..]),
         k @ ("pcontains" | "pflatten" | "pdash" | "pstroke" | "prect" | "ptransform" | "parc") => pathops::run(k, &toks[1..], aug),
         k => panic!("unknown case kind {}", k),
     }
